@@ -16,6 +16,7 @@ HARNESS = {
                ["pthread_mutex_init", "pthread_mutex_lock", "pthread_mutex_unlock", "pthread_cond_init", "pthread_cond_wait",
                 "pthread_cond_timedwait", "pthread_cond_broadcast", "pthread_cond_signal"]),
     "h_dll": (["internal/dll.c"], [], []),
+    "h_pool": (["internal/common.c", "internal/dll.c", "platform/linux/src/nsync_semaphore_futex.c", "platform/posix/src/time_rep.c"], [], []),
     "h_mu": (NSYNC_CORE + ["platform/linux/src/nsync_semaphore_futex.c", "platform/posix/src/time_rep.c"], [], []),
     "h_mub": (NSYNC_CORE + ["platform/posix/src/time_rep.c"], ["binsem.c"], [], "h_mu"),
     "h_l2": ([f for f in NSYNC_CORE if f not in ("internal/mu.c", "internal/mu_wait.c", "internal/cv.c", "internal/debug.c")]
